@@ -297,3 +297,57 @@ Theorem loop_magnetic_moment (cosd sind sqrt : R -> R) (az el area : R) (c : P3 
      m = mkP3 (2 * (area * px n)) (2 * (area * py n)) (2 * (area * pz n))).
 Proof. intros. apply loop_moment; assumption. Qed.
 Print Assumptions loop_magnetic_moment.
+
+(* ---- keyword arguments of get_source_field (kwargs.get(key, default)):
+        an explicit value is used as given, ALSO when it is falsy (strength 0,
+        0.0, 0j, False); a missing keyword means the default; an explicit None
+        strength raises; the field is linear in the strength, so strength zero
+        gives the zero field ---- *)
+Section Keywords.
+  Context {F : Type} {FO : FOps F}.
+  Hypothesis Fth : field_theory F0 F1 Fadd Fmul Fsub Fopp Fdiv Finv (@eq F).
+  Variable leb : F -> F -> bool.
+  Variables cosd sind sqrt : F -> F.
+  Variable angle : F -> F -> F.
+  Variables pi mu0 : F.
+  Local Open Scope F_scope.
+
+  Theorem keyword_strength_used_as_given st klen kel inp pts st' :
+    gsf_plain leb cosd sind sqrt angle (KwVal st) klen kel inp = Some (pts, st') -> st' = st.
+  Proof. exact (gsf_plain_strength leb cosd sind sqrt angle st klen kel inp pts st'). Qed.
+
+  Theorem keyword_strength_missing_is_one klen kel inp pts st' :
+    gsf_plain leb cosd sind sqrt angle KwMissing klen kel inp = Some (pts, st') -> st' = (1, 0).
+  Proof. exact (gsf_plain_missing_strength leb cosd sind sqrt angle klen kel inp pts st'). Qed.
+
+  Theorem keyword_strength_none_raises klen kel inp :
+    gsf_plain leb cosd sind sqrt angle KwNone klen kel inp = None.
+  Proof. exact (gsf_plain_none_strength leb cosd sind sqrt angle klen kel inp). Qed.
+
+  Theorem keyword_length_used_for_point_format kst len kel c az el : kst <> KwNone ->
+    gsf_plain leb cosd sind sqrt angle kst (KwVal len) kel (PI_dip (DPoint c az el))
+    = option_map (fun p => (p, match kst with KwVal v => v | _ => (1, 0) end))
+        (dipole_points leb cosd sind sqrt angle (negb (kw_electric kel)) (DPoint c az el) len).
+  Proof. exact (gsf_plain_length_point leb cosd sind sqrt angle kst len kel c az el). Qed.
+
+  Theorem source_field_linear_in_strength freq k sr si stc v :
+    source_scale leb pi mu0 freq (k * sr, k * si) stc v
+    = option_map (fun z => (k * fst z, k * snd z)) (source_scale leb pi mu0 freq (sr, si) stc v).
+  Proof. exact (scale_linear Fth leb pi mu0 freq k sr si stc v). Qed.
+
+  Theorem zero_strength_zero_field freq stc v z :
+    source_scale leb pi mu0 freq (0, 0) stc v = Some z -> z = (0, 0).
+  Proof. exact (scale_zero_strength Fth leb pi mu0 freq stc v z). Qed.
+End Keywords.
+Print Assumptions keyword_strength_used_as_given.
+Print Assumptions keyword_strength_missing_is_one.
+Print Assumptions keyword_strength_none_raises.
+Print Assumptions keyword_length_used_for_point_format.
+Print Assumptions source_field_linear_in_strength.
+Print Assumptions zero_strength_zero_field.
+
+Example zero_strength_hypothesis_satisfiable :
+  source_scale Rleb PI 1 (Some 2) (0, 0) false 3 = Some (0, 0) /\
+  source_scale Rleb PI 1 None (0, 0) false 3 = Some (0, 0).
+Proof. exact ex_zero_strength. Qed.
+Print Assumptions zero_strength_hypothesis_satisfiable.
